@@ -71,7 +71,9 @@ const EXTRA_CHARS: [&str; 65] = [
     "’", "“", "”", "‘", "…", "–", "—", "·", "•", "¹", "³", "¼", "¾", "ª", "º", "¿", "¡", "§", "¶", "©",
 ];
 
-const KNOWN_SLOW: [&str; 30] = [
+const KNOWN_SLOW: [&str; 39] = [
+    "factorize m^60", "factorize m^100",
+    "5 m -> m/(1 - 2^0.5)", "6 m -> 2^0.5 m", "6 -> 4^0.5", "3 m -> m/(2 - 2^1.5)", "((m kg s)^2147483647)^2147483647", "((m kg s)^65536)^32768", "(m kg s)^2147483647",
     "factorize J^2", "factorize kg^3 m^5 / s^7", "factorize W^2 / m", "factorize N J",
     // inputs behind defects found (and fixed) earlier: kept as a permanent family
     "\\u", "\\uzz", "\\u123456789", "1 mod 0", "0^-1", "1 << -1", "1 >> -1", "meter^0 + 1", "H99999999999", "\"\"",
@@ -113,7 +115,7 @@ const DATE_TAILS: [&str; 3] = ["", " + 1 day", " -> UTC"];
 /// every single exponent is accepted.
 const TOWER_EXPS: [&str; 16] = ["1", "-1", "2", "32767", "32768", "-32768", "65535", "65536", "-65536", "65537", "46340", "46341", "-46341", "2147483647", "-2147483647", "3037000500"];
 const TOWER_FORMS: [&str; 7] = ["({u}^{a})^{b}", "1/({u}^{a})^{b}", "1 + ({u}^{a})^{b}", "({u}^{a})^{b} -> m", "(({u}^{a})^{b})^2", "({u}^{a})^{b} ({u}^{a})^{b}", "({u}^{a})^{b} / ({u}^{a})^{b}"];
-const TOWER_UNITS: [&str; 3] = ["m", "kg", "s"];
+const TOWER_UNITS: [&str; 4] = ["m", "kg", "s", "(m kg s)"];
 
 const SEED_SRC: &str = include_str!("/repo/core/tests/query.rs");
 const MANUAL: &str = include_str!("/repo/docs/rink.7.adoc");
